@@ -30,7 +30,12 @@ var (
 )
 
 // ChildBinary is the path of the built child test binary.
-var ChildBinary = "/verif/.build/child.test"
+var ChildBinary = func() string {
+	if p := os.Getenv("VERIF_CHILD_BIN"); p != "" {
+		return p // a frozen copy of the build (long background runs while the tree is being edited)
+	}
+	return "/verif/.build/child.test"
+}()
 
 // Watchdog is the real-time limit for one command.
 var Watchdog = 120 * time.Second
